@@ -650,6 +650,89 @@ def phaseGate (v : Variant) (g : GlobalFlags) (pc : Option RFlags) (ph : Phase) 
   | .config => ⟨.no, .found (.ctl d a .none) false, .found (.ctl d a .none), false, expired⟩
   | _ => ⟨.no, .gone, .found (.ctl d a .none), false, expired⟩
 
+/-! ## 8c. Where certificates and revocations are kept: standalone and linked deployments
+
+  Every store access of the renewal path is routed on the dynamic type of `a.adminDB`: when it
+  offers the operation (the linked-CA client does) the linked service is used and the local database
+  is not looked at; otherwise the local database. Writers: `storeCertificate`,
+  `storeRenewedCertificate`, `Authority.revoke`; readers: `Authority.IsRevoked`,
+  `unsafeLoadProvisionerFromDatabase`, `certificateRecordsProvisioner` (`GetCertificateData`). -/
+
+inductive Deployment where
+  | standalone | linked
+  deriving DecidableEq, Repr
+
+/-- the two places -/
+structure Stores where
+  linkedRevoked : List Nat       -- serials revoked at the linked CA service
+  localRevoked : List Nat        -- serials in the local `revoked_x509_certs` table
+  linkedRecords : List (Nat × String)   -- serial ↦ provisioner id recorded by the linked service
+  localRecords : List (Nat × String)
+  deriving DecidableEq, Repr
+
+def Stores.empty : Stores := ⟨[], [], [], []⟩
+
+/-- What happens to the stores. `certPresented`: the revocation request came with the certificate
+    (mutual TLS, ACME) rather than with a token and a serial number; in a linked deployment the
+    certificate is then not known locally (`a.db.GetCertificate` finds nothing, `crt == nil`). -/
+inductive StoreOp where
+  | issue (serial : Nat) (provisionerId : String)
+  | renewed (parent serial : Nat)
+  | revoke (serial : Nat) (certPresented : Bool)
+  deriving DecidableEq, Repr
+
+def lookupRecord (rs : List (Nat × String)) (s : Nat) : Option String := (rs.find? (·.1 == s)).map (·.2)
+
+/-- `storeCertificate`, `storeRenewedCertificate` (the renewed certificate inherits the parent's
+    record), `Authority.revoke`: all route on the deployment only. -/
+def applyOp (d : Deployment) (st : Stores) : StoreOp → Stores
+  | .issue s p =>
+    match d with
+    | .linked => { st with linkedRecords := (s, p) :: st.linkedRecords }
+    | .standalone => { st with localRecords := (s, p) :: st.localRecords }
+  | .renewed parent s =>
+    match d with
+    | .linked =>
+      match lookupRecord st.linkedRecords parent with
+      | some p => { st with linkedRecords := (s, p) :: st.linkedRecords }
+      | none => st
+    | .standalone =>
+      match lookupRecord st.localRecords parent with
+      | some p => { st with localRecords := (s, p) :: st.localRecords }
+      | none => st
+  | .revoke s _ =>
+    match d with
+    | .linked => { st with linkedRevoked := s :: st.linkedRevoked }
+    | .standalone => { st with localRevoked := s :: st.localRevoked }
+
+def runOps (d : Deployment) (ops : List StoreOp) : Stores := ops.foldl (applyOp d) Stores.empty
+
+/-- `Authority.IsRevoked` -/
+def isRevokedAt (d : Deployment) (st : Stores) (s : Nat) : Bool :=
+  match d with
+  | .linked => st.linkedRevoked.contains s
+  | .standalone => st.localRevoked.contains s
+
+/-- `GetCertificateData(serial).Provisioner.ID` as both lookups see it -/
+def recordAt (d : Deployment) (st : Stores) (s : Nat) : Option String :=
+  match d with
+  | .linked => lookupRecord st.linkedRecords s
+  | .standalone => lookupRecord st.localRecords s
+
+/-- the gate input of a certificate after a history of store operations: the revocation lookup and
+    the database lookup are read from the stores of the deployment; `loaded id` says which stored
+    provisioner an id resolves to, if any -/
+def gateAfter (d : Deployment) (ops : List StoreOp) (serial : Nat) (loaded : String → Option Stored)
+    (ext : ExtLookup) (nyv exp : Bool) : GateIn :=
+  let st := runOps d ops
+  { revoked := if isRevokedAt d st serial then .yes else .no
+    db := match recordAt d st serial with
+      | none => .noRecord
+      | some id => match loaded id with
+        | some p => .found p false
+        | none => .gone
+    ext := ext, notYetValid := nyv, expired := exp }
+
 /-! ## 9. Source-derived facts
 
   Tables that stage `facts` re-derives with go/ast from the working tree (and from the Go
@@ -747,6 +830,14 @@ def renewRoutes : List String :=
 def tlsClientAuth : List String :=
   ["serverTLSConfig.ClientAuth=tls.VerifyClientCertIfGiven", "serverTLSConfig.ClientCAs=certPool"]
 
+/-- the routing functions of section 8c and, for each, the conditions under which it asks the admin
+    database / the local database for the optional operation: "offers it" and nothing else -/
+def storeRouting : List (String × List String) :=
+  [("revoke", ["adminDB?ok"]), ("IsRevoked", ["adminDB?ok"]),
+   ("certificateRecordsProvisioner", ["adminDB?ok", "db?ok"]),
+   ("unsafeLoadProvisionerFromDatabase", ["adminDB?ok", "db?ok"]),
+   ("storeRenewedCertificate", ["adminDB?ok"])]
+
 /-- name ↦ table, as the extractor renders it -/
 def factTable : String → Option (List String)
   | "renewTemplateFields" => some renewTemplateFields
@@ -773,6 +864,11 @@ def factTable : String → Option (List String)
   | "typesConvertedToCertificates" => some typesConvertedToCertificates
   | "renewRoutes" => some renewRoutes
   | "tlsClientAuth" => some tlsClientAuth
+  | "storeRouting:revoke" => storeRouting.lookup "revoke"
+  | "storeRouting:IsRevoked" => storeRouting.lookup "IsRevoked"
+  | "storeRouting:certificateRecordsProvisioner" => storeRouting.lookup "certificateRecordsProvisioner"
+  | "storeRouting:unsafeLoadProvisionerFromDatabase" => storeRouting.lookup "unsafeLoadProvisionerFromDatabase"
+  | "storeRouting:storeRenewedCertificate" => storeRouting.lookup "storeRenewedCertificate"
   | "goGeneratedOrder" => some (generatedOrder.map dotted)
   | "goExtraAppended" => some ["append(ret[:n],template.ExtraExtensions...)"]
   | _ => none
